@@ -1,7 +1,7 @@
 (* The documented conditions of the message-level tags (data/tags descriptions, property C16),
    as declarative predicates over the abstract catalog.  Written from the documentation; the only
    things shared with the model are the catalog datatype and the string constants. *)
-From Coq Require Import List NArith Bool.
+From Coq Require Import List NArith ZArith Bool.
 From I18n Require Import Model.Messages.
 Import ListNotations.
 Local Open Scope N_scope.
@@ -103,3 +103,23 @@ Definition first_unexplained_at (isword : N -> bool) (cat : list msg_entry) (j t
   /\ forall j' t', (j' < j \/ (j' = j /\ t' < t))%nat -> ~ unexplained_at isword cat j' t' c.
 Definition unexplained_in (isword : N -> bool) (e : msg_entry) (c : N) : Prop :=
   exists s, translation e s /\ (exists k, unusual_at isword s k c) /\ ~ explained isword e c.
+
+(* ------------------------------------------------------------------ *)
+(* flags (gettext manual, PO Files; data/tags)                          *)
+
+(* <family><name>-format for a name of data/string-formats *)
+Definition is_format_flag (names : list (list N)) (f : list N) : Prop :=
+  exists tp name, In name names /\ f = format_flag tp name.
+(* range:<min>..<max>, blanks allowed around the numbers *)
+Definition blank (c : N) : Prop := c = 32 \/ c = 9 \/ c = 13 \/ c = 12 \/ c = 11.
+Definition digit (c : N) : Prop := 48 <= c /\ c <= 57.
+Definition decimal (ds : list N) : Z := fold_left (fun acc c => (acc * 10 + Z.of_N (c - 48))%Z) ds 0%Z.
+Definition range_syntax (f d1 d2 : list N) : Prop :=
+  exists l r, f = s_range ++ l ++ d1 ++ [46; 46] ++ d2 ++ r /\ Forall blank l /\ Forall blank r
+    /\ d1 <> [] /\ d2 <> [] /\ Forall digit d1 /\ Forall digit d2.
+(* "the designated range contains at least two numbers" *)
+Definition valid_range (f : list N) (i j : Z) : Prop :=
+  exists d1 d2, range_syntax f d1 d2 /\ i = decimal d1 /\ j = decimal d2 /\ (i < j)%Z.
+Definition is_range_flag (f : list N) : Prop := exists r, f = s_range ++ r.
+Definition known_flag (names : list (list N)) (f : list N) : Prop :=
+  f = s_fuzzy \/ f = s_wrap \/ f = s_no_wrap \/ f = s_markdown \/ is_range_flag f \/ is_format_flag names f.
